@@ -211,10 +211,11 @@ func replay(c *core.Ctx, raw json.RawMessage) {
 	switch head.Part {
 	case "c":
 		var cc struct {
-			Choices []int `json:"choices"`
+			Choices   []int `json:"choices"`
+			Prequeued bool  `json:"prequeued"`
 		}
 		json.Unmarshal(raw, &cc)
-		replayC(c, cc.Choices)
+		replayC(c, cc.Choices, cc.Prequeued)
 	case "a":
 		replayA(c, ag, raw)
 	case "b":
